@@ -692,6 +692,16 @@ def p_history(a):
     """executes the calls one after the other in THIS interpreter; after each call reports its result and whether
     any argument object handed to prtpy (list, array, dict, the dict behind the value function) was modified"""
     out = []
+
+    def env():
+        """process-wide state that a library call has no business changing: numpy's error mode and print options, the recursion
+        limit, the states of the global random generators"""
+        import random as _r, hashlib as _h
+        return {"np.geterr": dict(np.geterr()), "np.printoptions": {k: str(v) for k, v in np.get_printoptions().items()},
+                "recursionlimit": sys.getrecursionlimit(),
+                "random.state": _h.sha1(repr(_r.getstate()).encode()).hexdigest()[:12],
+                "np.random.state": _h.sha1(repr(np.random.get_state()).encode()).hexdigest()[:12]}
+    e0 = env()
     for c in a["calls"]:
         del CREATED[:]
         try:
@@ -702,7 +712,10 @@ def p_history(a):
             r = {"exc": "RecursionError"}
         except Exception as e:      # noqa
             r = enc_exc(e)
-        out.append({"result": r, "args_changed": unchanged_arguments()})
+        e1 = env()
+        changed = {k: [e0[k], e1[k]] for k in e0 if e0[k] != e1[k]}
+        e0 = e1
+        out.append({"result": r, "args_changed": unchanged_arguments(), "env_changed": changed or None})
     return {"history": out}
 
 
